@@ -141,6 +141,7 @@ func Load(repoDir, goarch, tags string, useCHA bool) (*Ctx, error) {
 		c.CG = vta.CallGraph(all, chaG)
 	}
 	c.LoadSeconds = time.Since(t0).Seconds()
+	theCtx = c
 	return c, nil
 }
 
@@ -291,3 +292,6 @@ func FuncName(fn *ssa.Function) string {
 	s = strings.ReplaceAll(s, modPath, "gohlslib")
 	return s
 }
+
+// theCtx is the context of the tree being analysed (one per process), for helpers that have no Ctx parameter.
+var theCtx *Ctx
